@@ -17,7 +17,7 @@ RULE = ("(a) exhaustive: <=3 samples x <=2 records over GT alphabet {0/0,0/1,1/1
         "contigs) rendered to VCF and run through `sfs create`: stdout compared as exact text with the model's integers, "
         "exit status, 'Skipped X/Y' line; a slice also as BCF; (c) garbage (other ploidy) in unselected columns must not "
         "change the output; (d) joint spectrum marginalized over a population = spectrum of the remaining populations on "
-        "complete data. non-trivial = at least one counted and (for b) one skipped record; the map given inline with labels containing '=', spaces, '#', ':' (split at the first '=')")
+        "complete data. non-trivial = at least one counted and (for b) one skipped record; the map given inline with labels containing '=', spaces, '#', ':' (split at the first '='); samples files given through a named pipe and as /dev/stdin")
 
 ALPHA = ["0/0", "0/1", "1/1", "./.", "./1", "1/2", "0|1"]
 
@@ -150,6 +150,24 @@ def check(rep, tier, seed):
     from common import invocation_variants
     invocation_variants(rep, "create-cli:invocation-form", [j for j in jobs if len(j[1]) > 300], rng, n=8 if tier == "quick" else 60)
     compare_cli(rep, "create-cli-vcf", jobs, exps, metas)
+    # a samples file need not be a regular file: given through a named pipe or as /dev/stdin (the call set by path) it
+    # assigns the same samples to the same populations
+    from common import run_cli_fifo
+    sj = [(j, m) for j, m in zip(jobs, metas) if j[0][:2] == ["create", "-S"] and len(j[1]) < 200000][:4 if tier == "quick" else 30]
+    for gi, ((argv, vcf), m) in enumerate(sj):
+        content = open(argv[2], "rb").read()
+        vpath = os.path.join(WORK, "c01_in_%d.vcf" % gi)
+        open(vpath, "wb").write(vcf)
+        ref_ = run_cli_many([(["create", "-S", argv[2], vpath], b"")])[0]
+        fifo = os.path.join(WORK, "c01_fifo_%d" % gi)
+        for name, (rc, so, se) in (("named pipe", run_cli_fifo(["create", "-S", fifo, vpath], fifo, content)),
+                                   ("/dev/stdin", run_cli_many([(["create", "-S", "/dev/stdin", vpath], content)])[0])):
+            rep.count("samples-file-not-regular", "%s: %s" % (name, m[:120]), True)
+            if (rc, so) != (ref_[0], ref_[1]) or rc != 0:
+                rep.fail(kind="property-oracle", cls="create-cli:samples-file-not-regular", case="samples file given as %s" % name, argv=["sfs", "create", "-S", "<%s>" % name, "<vcf>"],
+                         stdin=vcf.decode(), observed={"rc": rc, "stdout": so.decode(errors="replace")[:300], "stderr": se.decode(errors="replace")[-200:]},
+                         expected=ref_[1].decode(errors="replace")[:300], detail="the sample map read from a %s gives a different result than the same map read from a regular file" % name)
+        os.remove(vpath)
     for f in sfiles:
         os.remove(f)
     compare_cli(rep, "create-cli-bcf", bjobs, run_model(bcases), bmetas)
